@@ -1,5 +1,3 @@
-\* X15: closed configuration "list" of UtilContMC (3 nodes, 2 lists, 2 values, implementation layer in lock step);
-\* the check generates its configurations from harness/props/x15.py: configs() (listA listB listC listD listE)
 CONSTANTS
   Which = "list"
   NNodes = 3
